@@ -1163,13 +1163,37 @@ def init_kinds():
         payload_text.kinds = {k.name: k for k in c03.kinds()}
 
 
+def check_sync_from_bits(ctx, SP, c, r=None, err=None):
+    """the bit-string entry point of the centre lookup (coverage round: SyncPatterns.from_bits was never executed): it must give the member
+    resolve_bytes gives for the same 48 bits, read the first 48 bits only, and invert as_bits on the patterns themselves"""
+    if r is None and err is None:
+        r, err = call(SP.resolve_bytes, c.to_bytes(6, "big"))
+    if err:
+        return
+    inp = {"mode": "sync-lookup", "centre": c}
+    b = int2ba(c, length=48)
+    for tail in ("", "1" * 16, "0" * 216):
+        fb, e2 = call(SP.from_bits, b + bitarray(tail))
+        if e2 or fb is not r:
+            ctx.fail("sync-from_bits-differs", inp, f"SyncPatterns.from_bits of the centre {c:#014x}{' followed by ' + str(len(tail)) + ' more bits' if tail else ''} "
+                     f"is {e2 or fb}, resolve_bytes gives {r}", expected=str(r), actual=e2 or str(fb))
+            return
+    if r.value >= 0:
+        ab, e2 = call(r.as_bits)
+        if e2 or ab != b:
+            ctx.fail("sync-from_bits-differs", inp, f"{r}.as_bits() is not the 48 bits it was looked up from", expected=b.to01(), actual=e2 or ab.to01())
+    ctx.count("structured:centre-lookup-from_bits")
+
+
 def run_input(r, inp, pairs, hold=None):
     """the oracle on one recorded / sampled input (every `mode` the checks produce); appends the canonical (model line, output)
     pairs that were observed"""
     Burst, BT, DT, SP, ST, EMB = lib()
     init_kinds()
     mode = inp.get("mode")
-    if mode == "data":
+    if mode == "sync-lookup":
+        check_sync_from_bits(r, SP, inp["centre"])
+    elif mode == "data":
         srcs = {(k, s.name): (k, dt, s, t) for k, dt, s, t in payload_sources()}
         kname, dt, src, _ = srcs[(inp["kind"], inp["c03kind"])]
         var = next(v for v in src.variants if v.name == inp["variant"])
@@ -2578,6 +2602,7 @@ def run(ctx):
         r, err = call(SP.resolve_bytes, c.to_bytes(6, "big"))
         out = err or ("EMB" if r.value < 0 else str(r.value))
         ctx.count("structured:centre-lookup-screen")
+        check_sync_from_bits(ctx, SP, c, r, err)
         if k % 4 == 0 or out != "EMB":
             pairs_resolve.append((f"sync.resolve {c}", out))
         if out != "EMB" and c not in values and promoted < 64:
@@ -2594,6 +2619,7 @@ def run(ctx):
         for c in [s.value] + [s.value ^ (1 << i) for i in range(48)]:
             r, err = call(SP.resolve_bytes, c.to_bytes(6, "big"))
             pairs_resolve.append((f"sync.resolve {c}", err or ("EMB" if r.value < 0 else str(r.value))))
+            check_sync_from_bits(ctx, SP, c, r, err)
             if c != s.value:
                 x = voice_frame(int2ba(rng.getrandbits(216), length=216), int2ba(c, length=48))
                 bt = rng.choice("DVU")
